@@ -186,51 +186,8 @@ def needsFactory : Op → Bool
   | .dispatch .. | .resize _ | .settings .. | .drain | .setHandler _ => true
   | _ => false
 
-def showTtl : Option Nat → String
-  | some t => toString t
-  | none => "-"
-
-def hexByte? (a b : Char) : Option Nat :=
-  let d := fun (c : Char) => if c.isDigit then some (c.toNat - '0'.toNat)
-    else if 'a' ≤ c && c ≤ 'f' then some (c.toNat - 'a'.toNat + 10) else none
-  do pure ((← d a) * 16 + (← d b))
-
-def hexBytes? : List Char → Option (List Nat)
-  | [] => some []
-  | a :: b :: r => do pure ((← hexByte? a b) :: (← hexBytes? r))
-  | _ => none
-
-/-- E-PURE ops of the `jobwire` harness (the wire format of `JobOptions`): `none` = not such an op -/
-def wireStep (ws : List String) (impl : String) : Option StepOut :=
-  match ws with
-  | ["jo", t] =>
-    let ttl : Option Nat := if t == "-" then none else t.toNat?
-    if t != "-" && ttl.isNone then some { model := "bad-op" } else
-    let back := ttlFromWire (ttlToWire ttl)
-    let implBack : Option (Option Nat) := (kv (words impl) "back").bind fun b => if b == "-" then some none else b.toNat?.map some
-    -- C13, TTL clause across the wire: a job that has a TTL still has one at the remote factory and vice versa; a TTL
-    -- the field can hold arrives unchanged; a longer one arrives as the longest the field can hold
-    let bad : List String := match implBack with
-      | none => ["unparsable"]
-      | some ib =>
-        (if ib.isNone != ttl.isNone then ["c13-ttl-lost-on-the-wire"] else []) ++
-        (match ttl, ib with
-          | some t, some b =>
-            if (0 < t && t ≤ U64_MAX && b != t) || (t > U64_MAX && b != U64_MAX) then ["c13-ttl-changed-on-the-wire"] else []
-          | _, _ => [])
-    some { model := s!"len=16 wire={ttlToWire ttl} back={showTtl back} submit_same=1", oracle := bad,
-           nontrivial := ttl.any (fun t => t == 0 || t ≥ U64_MAX) }
-  | ["jobytes", h] =>
-    match hexBytes? (if h == "-" then [] else h.toList) with
-    | some bs => some { model := s!"back={showTtl (ttlOfBytes bs)}", nontrivial := bs.length == 16 }
-    | none => some { model := "bad-op" }
-  | _ => none
-
 def step (st : St) (op impl : String) : St × StepOut :=
   let ws := words op
-  match wireStep ws impl with
-  | some o => (st, if st.only == "" || st.only == "c13-" then o else { o with oracle := [] })
-  | none =>
   match parseTimes? ws with
   | none => (st, { model := "bad-op" })
   | some (t0, tq, te) =>
